@@ -93,5 +93,10 @@ def live_segmentation(ctx):
 
 
 def live_subpackages(ctx):
-    """live part of C05"""
-    return None
+    """live part of C05: a running server, mostly sub-packaged messages (totals 1..4, two transfers interleaved, parts written two
+    frames at a time so that completions share a read); every callback, reply and frame validated by Trace_Conn"""
+    thorough = ctx.tier == "thorough"
+    tr = os.path.join(ctx.scratch, "c05_live.ndjson")
+    rc, err, events = run_live(ctx, ["live-c06", 8 if thorough else 4, 150 if thorough else 50, tr, "subpkg"])
+    crash_check(ctx, rc, err, "live-c06-subpkg")
+    trace_conn(ctx, split_conns(events), "c05live")
